@@ -1,10 +1,12 @@
 (** C04 - Export and JSON round-trip reproduce exactly the data present.
     Theorem-only file.  Models: Tree/Editor.v (node/edit.go + container_meta_list.go against
     reference stores), Tree/Export.v ([visit]: the declarative export), Tree/JsonW.v (writer),
-    Tree/JsonR.v (reader + node.NewValue, after the fixes listed in KNOWN_FINDINGS.txt). *)
+    Tree/JsonR.v (reader + node.NewValue, after the fixes listed in KNOWN_FINDINGS.txt),
+    Tree/ExportPoint.v ([reported]: the export position by position), Tree/JsonSession.v (a JSONWtr
+    value with its private bufio.Writer through a history of exports). *)
 From Coq Require Import ZArith List Bool Strings.Byte.
 From YV Require Import Val.Model Tree.Schema Tree.Editor Tree.Export Tree.ExportProofs Tree.JsonSpec Tree.JsonExp
-  Tree.JsonW Tree.JsonR Tree.JsonRProofs.
+  Tree.JsonW Tree.JsonR Tree.JsonRProofs Tree.ExportPoint Tree.ExportPointProofs Tree.JsonSession Tree.JsonSessionProofs.
 Import ListNotations.
 Open Scope Z_scope.
 
@@ -114,3 +116,104 @@ Proof.
   eexists. split; [vm_compute; reflexivity | vm_compute; reflexivity].
 Qed.
 Print Assumptions C04_example.
+
+(** ** position by position: "every set leaf ... and nothing that is not there apart from the schema
+    default of an unset leaf" *)
+
+(** a read-out of a container-like node (module root, container, list entry) succeeds, yields one
+    position per schema definition, and each position holds what [reported] says of THAT definition
+    and THAT position's data: nothing outside the chosen case, the value of a set leaf, the leaf's
+    own default if it is unset (below the start selection), the export of an existing container or
+    list, nothing for an absent one *)
+Theorem C04_export_pointwise : forall m kids sc new st, st <> Update ->
+  wfd (SCont m kids) (DCont sc) = true ->
+  exists out,
+    edit_one false (SCont m kids) (DCont sc) (empty_node (SCont m kids)) new st = Ok (DCont out) /\
+    length out = length kids /\
+    forall i k, nth_error kids i = Some k -> nth i out None = reported new kids sc i k.
+Proof. exact export_pointwise. Qed.
+Print Assumptions C04_export_pointwise.
+
+(** an unset leaf or leaf-list of a node that is new at the destination reports ITS default *)
+Theorem C04_unset_leaf_own_default : forall m kids sc st i lm ty il dflt out, st <> Update ->
+  wfd (SCont m kids) (DCont sc) = true ->
+  nth_error kids i = Some (SLeaf lm ty il dflt) -> nth i sc None = None ->
+  guard_selected (nm_guard lm) kids sc = true ->
+  edit_one false (SCont m kids) (DCont sc) (empty_node (SCont m kids)) true st = Ok (DCont out) ->
+  nth i out None = option_map DLeaf dflt.
+Proof. exact unset_leaf_own_default. Qed.
+Print Assumptions C04_unset_leaf_own_default.
+
+(** what is reported at a position does not depend on the types and defaults of the OTHER
+    definitions of the node (copies made by `uses` share compiled objects; `refine` gives each copy
+    its own default): two schemas with the same choice/case layout and the same definition at
+    position i export the same at position i *)
+Theorem C04_export_ignores_other_definitions : forall m kids kids' sc new st i k out out', st <> Update ->
+  wfd (SCont m kids) (DCont sc) = true -> wfd (SCont m kids') (DCont sc) = true ->
+  map sguard kids = map sguard kids' ->
+  nth_error kids i = Some k -> nth_error kids' i = Some k ->
+  edit_one false (SCont m kids) (DCont sc) (empty_node (SCont m kids)) new st = Ok (DCont out) ->
+  edit_one false (SCont m kids') (DCont sc) (empty_node (SCont m kids')) new st = Ok (DCont out') ->
+  nth i out None = nth i out' None.
+Proof. exact export_ignores_other_definitions. Qed.
+Print Assumptions C04_export_ignores_other_definitions.
+
+(** every list entry exactly once, in source order *)
+Theorem C04_list_entries_once_in_order : forall m keys row rows new st, st <> Update ->
+  wfd (SList m keys row) (DList rows) = true ->
+  edit_one false (SList m keys row) (DList rows) (DList []) new st = Ok (DList (map (fun r => visit true row r) rows)).
+Proof. exact export_list_entries. Qed.
+Print Assumptions C04_list_entries_once_in_order.
+
+(** ** "as JSON text": every export of a writer, not only its first *)
+
+(** one JSONWtr value (Tree/JsonSession.v: the struct with its Out, configuration and private
+    bufio.Writer) through ANY history of Out/configuration assignments, Node()+InsertInto exports
+    and JSON(sel) calls, over streams failing at any position: every export delivers the document a
+    fresh writer of that moment's configuration writes ([write_bytes], which by C04_json_roundtrip
+    reads back to the tree) to the stream that is Out at that moment, fails exactly when that
+    stream did not take all of it, JSON(sel) returns that document; nothing of an earlier export
+    survives into the next *)
+Theorem C04_writer_reuse : forall fmt_float idmod starts ops ss w,
+  run_session jw_node fmt_float idmod starts ss w ops =
+  spec_session fmt_float idmod starts ss (jw_out w) (jw_cfg w) ops.
+Proof. exact session_is_fresh_writers. Qed.
+Print Assumptions C04_writer_reuse.
+
+(** per stream: it ends up holding what it held, followed by the documents of exactly the exports
+    made while it was Out - each once, in order, cut where it stopped accepting - and nothing else *)
+Theorem C04_writer_reuse_streams : forall fmt_float idmod starts ops ss w ssf rs k s,
+  run_session jw_node fmt_float idmod starts ss w ops = Some (ssf, rs) ->
+  nth_error ss k = Some s ->
+  nth_error ssf k = Some (filled s (directed fmt_float idmod starts k (jw_out w) (jw_cfg w) ops)).
+Proof. exact session_streams. Qed.
+Print Assumptions C04_writer_reuse_streams.
+
+(** the statement is not vacuous: a writer that keeps its bufio.Writer between exports violates it
+    (second export after Out was changed: the new stream stays empty, the old one gets both) *)
+Theorem C04_writer_keeping_buffer_refuted :
+  run_session jw_node_keep rf_float rf_idmod [rf_start] rf_streams (mkJW 0 rf_cfg None) rf_ops <>
+  spec_session rf_float rf_idmod [rf_start] rf_streams 0 rf_cfg rf_ops.
+Proof. exact keep_buffer_refuted. Qed.
+Print Assumptions C04_writer_keeping_buffer_refuted.
+
+(** the hypotheses are satisfiable: a grouping-like schema (two copies of one leaf with different
+    defaults, one unset) and a two-stream history *)
+Definition ex2_meta (n : list byte) : nmeta := mkMeta n [x6d] true [] None.
+Definition ex2_kids : list snode :=
+  [ SLeaf (ex2_meta [x61]) (TInt FInt32) false (Some (LV (VInt FInt32 5)));
+    SLeaf (ex2_meta [x62]) (TInt FInt32) false (Some (LV (VInt FInt32 30))) ].
+Example C04_example_defaults :
+  wfd (SCont (ex2_meta [x63]) ex2_kids) (DCont [Some (DLeaf (LV (VInt FInt32 7))); None]) = true /\
+  edit_one false (SCont (ex2_meta [x63]) ex2_kids) (DCont [Some (DLeaf (LV (VInt FInt32 7))); None])
+           (empty_node (SCont (ex2_meta [x63]) ex2_kids)) true Insert =
+  Ok (DCont [Some (DLeaf (LV (VInt FInt32 7))); Some (DLeaf (LV (VInt FInt32 30)))]).
+Proof. split; vm_compute; reflexivity. Qed.
+Print Assumptions C04_example_defaults.
+
+Example C04_example_session :
+  run_session jw_node rf_float rf_idmod [rf_start] rf_streams (mkJW 0 rf_cfg None) rf_ops =
+  Some ([mkSink [x7b; x22; x61; x22; x3a; x74; x72; x75; x65; x7d] None;
+         mkSink [x7b; x22; x61; x22; x3a; x74; x72; x75; x65; x7d] None], [RSet; RExp false; RSet; RExp false]).
+Proof. exact fresh_buffer_example. Qed.
+Print Assumptions C04_example_session.
